@@ -10,6 +10,7 @@ Local Open Scope Z_scope.
 Definition harness_world : world :=
   {| w_reflects := fun ctr snd => Nat.eqb ctr 10 && Nat.eqb snd 0;
      w_gov := 11%nat;
+     w_ica_acct := fun _ => false;
      w_ica_allow := fun _ => false |}.
 
 Record case := {
